@@ -13,6 +13,7 @@ import Mfi.Lemmas.AccL
 import Mfi.Props.C09
 import Mathlib.Tactic.Ring
 import Mfi.Lemmas.ConstL
+import Mfi.Lemmas.WorldL
 
 namespace Mfi.Props.C04
 open Mfi Mfi.Fx Mfi.Risk Mfi.Gen Mfi.Props.C09
@@ -659,5 +660,49 @@ theorem scaling_table_is_powers_of_ten : Mfi.Gen.EXP_10_I80F48 = Mfi.Fx.POW10FX 
 
 /-- "positions of less than one native unit count as empty": the threshold is exactly one unit -/
 theorem one_native_unit : Mfi.Gen.EMPTY_BALANCE_THRESHOLD = Mfi.Fx.ONE := by decide
+
+section whole_instructions
+open Mfi Mfi.World Mfi.Gen Mfi.Gen.Acc
+
+/-! ### whole instructions (Mfi/Model/World.lean) -/
+
+/-- the slot array and the books an instruction leaves behind pass the initial-margin check: the portfolio the engine sees
+    is built from EXACTLY that post-state (every active slot, in slot order, the operated bank with its new books) -/
+def LeavesHealthy (c : Ctx) (o : Out) : Prop :=
+  ∃ ps, portfolio c o.slots o.books = .ok ps ∧ Risk.checkInitHealth ps = .ok ()
+
+theorem initHealth_ok {c : Ctx} {slots : List Account.Slot} {b : Bank.Bank} (hf : flag c ACCOUNT_IN_FLASHLOAN = false)
+    (h : initHealth c slots b = .ok ()) : ∃ ps, portfolio c slots b = .ok ps ∧ Risk.checkInitHealth ps = .ok () := by
+  unfold initHealth at h
+  rw [hf] at h
+  simp only [Bool.false_eq_true, if_false] at h
+  obtain ⟨ps, hps, h⟩ := Res.bind_ok h
+  exact ⟨ps, hps, h⟩
+
+/-- **world_borrow_leaves_healthy**: a successful borrow outside a flash loan leaves a post-state that passes the initial
+    check (borrow is refused in receivership altogether) -/
+theorem world_borrow_leaves_healthy {c : Ctx} {amt : Int} {o : Out} (h : World.borrow c amt = .ok o)
+    (hf : flag c ACCOUNT_IN_FLASHLOAN = false) : LeavesHealthy c o ∧ flag c ACCOUNT_IN_RECEIVERSHIP = false :=
+  ⟨initHealth_ok hf (borrow_ok h).health, (borrow_ok h).flags.2⟩
+
+/-- **world_withdraw_leaves_healthy**: a successful withdrawal outside a flash loan and outside receivership leaves a
+    post-state that passes the initial check -/
+theorem world_withdraw_leaves_healthy {c : Ctx} {amt : Int} {all : Bool} {o : Out} (h : World.withdraw c amt all = .ok o)
+    (hf : flag c ACCOUNT_IN_FLASHLOAN = false) (hr : flag c ACCOUNT_IN_RECEIVERSHIP = false) : LeavesHealthy c o := by
+  have hh := (withdraw_ok h).health
+  unfold withdrawHealth at hh
+  rw [hr] at hh
+  exact initHealth_ok hf (by simpa using hh)
+
+/-- … and what passing means (`gate_iff`): weighted assets cover weighted liabilities at the initial requirement and an
+    isolated-tier debt is the only debt -/
+theorem world_gate_meaning {c : Ctx} {o : Out} (h : LeavesHealthy c o) :
+    ∃ ps comps, portfolio c o.slots o.books = .ok ps ∧ Risk.components ps .initial = .ok comps ∧
+      comps.liabs ≤ comps.assets ∧ Risk.riskTiers ps = .ok () := by
+  obtain ⟨ps, hps, hc⟩ := h
+  obtain ⟨comps, h1, h2, h3⟩ := (gate_iff ps).1 hc
+  exact ⟨ps, comps, hps, h1, h2, h3⟩
+
+end whole_instructions
 
 end Mfi.Props.C04
